@@ -5,6 +5,7 @@ import Splipy.Lemmas.C08Knots
 import Splipy.Lemmas.C08LowerEval
 import Splipy.Lemmas.C08RoundTrip
 import Splipy.Lemmas.C08SeamDeriv
+import Splipy.Lemmas.C07Mult
 import Splipy.Lemmas.C10Ctor
 import Splipy.Lemmas.EvalRow
 import Mathlib.Data.Rat.Floor
@@ -106,27 +107,23 @@ theorem C08_seam_derivative [FloorRing K] (o : Obj K) {b : Basis K} (hb : o.base
   derivativeGeneric_seam o hb hv hper hmult hd htol hex0 hex1 a tensor
 
 /-- **`lower_periodic(k')` — the model's `Obj.lowerPeriodic`** (curves, surfaces, volumes;
-fibre-wise).  `dir` a valid periodic direction (order `p`, continuity `k`, `n` functions) under the
-guard `n ≥ p + k` of periodic knot insertion, control net with `n` rows along `dir`, seam with exactly
-its declared multiplicity (`hseam`: the first knot after the `p` leading ones is larger than `start`).
-For EVERY `k'` with `-1 ≤ k' ≤ k` the call succeeds and returns an object `o'` whose basis along
-`dir` is a VALID basis of CONTINUITY `k'` (for `k' = -1`: a valid non-periodic basis) of the same
+fibre-wise).  `dir` ANY valid periodic direction (order `p`, continuity `k`, `n ≥ 1` functions — no
+lower bound `n ≥ p + k`, no assumption on the seam multiplicity), control net with `n` rows along
+`dir`.  For EVERY `k'` with `-1 ≤ k' ≤ k` the call succeeds and returns an object `o'` whose basis
+along `dir` is a VALID basis of CONTINUITY `k'` (for `k' = -1`: a valid non-periodic basis) of the same
 order, start and end, with `n + (k - k')` functions (the seam multiplicity grew by `k - k'`), the
 other bases and `rational` untouched — and THE WRAPPED SPLINE OF EVERY FIBRE IS UNCHANGED: `wsum`
 (value and all derivatives, both sides) at every `t` of the domain.  (`wsum … nAll m c` with
 `nAll = m` is the ordinary `splineDeriv`, which is the case `k' = -1`.)
-Proof: every round is a periodic insertion of `start` (`C04` `PerRefines`, allowed by the guard since
-`start ≠ end`) followed by `roll(1)` / `np.roll(cps, -1)` (shifted periodic sequences,
-`Lemmas/C07Roll.lean`), dropping the function that leaves the window; induction over the rounds
-(`Lemmas/C08Lower.lean`, `LowerInv`).
-
-`_partial`: the guard `n ≥ p + k` (the pinned code is wrong below it — known finding) and `hseam`. -/
-theorem C08_lower_periodic_partial [FloorRing K] (o : Obj K) (dir : ℕ) (hdir : dir < o.bases.size)
+Proof: every round is a periodic insertion of `start` (`C04.insertKnots_fibres_periodic_all`: direct
+algorithm or cover branch; the new knot `p` is `start` by the array description around the insertion
+index, `Lemmas/C07PerWindow.lean`) followed by `roll(1)` / `np.roll(cps, -1)` (shifted periodic
+sequences, `Lemmas/C07Roll.lean`), dropping the function that leaves the window; induction over the
+rounds (`Lemmas/C08Lower.lean`, `LowerCore`). -/
+theorem C08_lower_periodic [FloorRing K] (o : Obj K) (dir : ℕ) (hdir : dir < o.bases.size)
     (hax : dir < o.cps.shape.length) (hv : (o.basis dir).Valid) (k : ℕ)
     (hk : (o.basis dir).periodic = (k : Int))
-    (hguard : (o.basis dir).order + k ≤ (o.basis dir).numFunctions)
     (hshape : o.cps.shape.getD dir 0 = (o.basis dir).numFunctions)
-    (hseam : (o.basis dir).start < (o.basis dir).kn (o.basis dir).order)
     (k' : Int) (h1 : -1 ≤ k') (h2 : k' ≤ k) :
     ∃ o', o.lowerPeriodic k' dir = .ok o' ∧
       (o'.basis dir).Valid ∧ (o'.basis dir).periodic = k' ∧
@@ -141,38 +138,62 @@ theorem C08_lower_periodic_partial [FloorRing K] (o : Obj K) (dir : ℕ) (hdir :
             (o'.basis dir).numFunctions (C04.fibre o' dir a i) d t
           = C04.wsum s (o.basis dir).kn ((o.basis dir).order - 1) (o.basis dir).nAll
             (o.basis dir).numFunctions (C04.fibre o dir a i) d t := by
-  obtain ⟨o', hl, hI⟩ := lowerPeriodic_spec o dir hdir hax hv k hk hguard hshape hseam k' h1 h2
+  obtain ⟨o', hl, hI⟩ := lowerPeriodic_spec_all o dir hdir hax hv k hk hshape k' h1 h2
   refine ⟨o', hl, hI.valid, ?_, hI.order_eq, hI.num_eq, hI.start_eq, hI.stop_eq, hI.other,
     hI.rational_eq, hI.shape_eq, fun a i ha hi s d t ht => ?_⟩
   · rw [hI.periodic_eq, hk]; omega
   · rw [hI.nAll_eq, hI.num_eq]; exact hI.same a i ha hi s d t ht
+
+/-- Older guarded form of `C08_lower_periodic`, kept for the files that call it (C12): the
+hypotheses `hguard` (`n ≥ p + k`) and `hseam` (`start < knots[p]`) are NOT used. -/
+theorem C08_lower_periodic_partial [FloorRing K] (o : Obj K) (dir : ℕ) (hdir : dir < o.bases.size)
+    (hax : dir < o.cps.shape.length) (hv : (o.basis dir).Valid) (k : ℕ)
+    (hk : (o.basis dir).periodic = (k : Int))
+    (_hguard : (o.basis dir).order + k ≤ (o.basis dir).numFunctions)
+    (hshape : o.cps.shape.getD dir 0 = (o.basis dir).numFunctions)
+    (_hseam : (o.basis dir).start < (o.basis dir).kn (o.basis dir).order)
+    (k' : Int) (h1 : -1 ≤ k') (h2 : k' ≤ k) :
+    ∃ o', o.lowerPeriodic k' dir = .ok o' ∧
+      (o'.basis dir).Valid ∧ (o'.basis dir).periodic = k' ∧
+      (o'.basis dir).order = (o.basis dir).order ∧
+      (o'.basis dir).numFunctions = (o.basis dir).numFunctions + ((k : Int) - k').toNat ∧
+      (o'.basis dir).start = (o.basis dir).start ∧ (o'.basis dir).stop = (o.basis dir).stop ∧
+      (∀ d, d ≠ dir → o'.basis d = o.basis d) ∧ o'.rational = o.rational ∧
+      o'.cps.shape = o.cps.shape.set dir ((o.basis dir).numFunctions + ((k : Int) - k').toNat) ∧
+      ∀ a i, a < C04.outerN o dir → i < C04.innerN o dir → ∀ (s : Side) (d : ℕ) (t : K),
+        s.mem (o.basis dir).start (o.basis dir).stop t →
+        C04.wsum s (o'.basis dir).kn ((o.basis dir).order - 1) (o'.basis dir).nAll
+            (o'.basis dir).numFunctions (C04.fibre o' dir a i) d t
+          = C04.wsum s (o.basis dir).kn ((o.basis dir).order - 1) (o.basis dir).nAll
+            (o.basis dir).numFunctions (C04.fibre o dir a i) d t :=
+  C08_lower_periodic o dir hdir hax hv k hk hshape k' h1 h2
 
 /-- Raising the periodicity is rejected with `ValueError`. -/
 theorem C08_lower_periodic_raise [FloorRing K] (o : Obj K) (dir : ℕ) (k' : Int)
     (h : (o.basis dir).periodic < k') : o.lowerPeriodic k' dir = .error .value :=
   lowerPeriodic_raise o dir k' h
 
-/-- **`lower_periodic` on curves and the real evaluator.**  Curve (rational or not) over a valid
-periodic basis `b1` with `n ≥ p + k` and `hseam`; `-1 ≤ k' ≤ k`; `tol > 0`; parameters `us`
-admissible for `b1` (tolerance comparisons exact at `u` and at the wrapped point) and — when the
+/-- **`lower_periodic` on curves and the real evaluator.**  Curve (rational or not) over ANY valid
+periodic basis `b1` (no guard `n ≥ p + k`, no seam hypothesis); `-1 ≤ k' ≤ k`; `tol > 0`; parameters
+`us` admissible for `b1` (tolerance comparisons exact at `u` and at the wrapped point) and — when the
 result is non-periodic, `k' = -1` — inside `[start, end]` and not the empty list (for which the
-non-periodic result raises `ValueError` while the periodic original returns an empty array).  Then `lower_periodic(k')` succeeds and
-`o'.evaluate tol [us] = o.evaluate tol [us]` (the same tensor) provided the parameters are admissible
-for the new basis too.  Via `Lemmas/BridgeTransfer.lean` (`transfer_curve`) and
-`C04.specRow_sum_periodic`.  `_partial`: as `C08_lower_periodic_partial`; surfaces/volumes are covered
-fibre-wise by that theorem only. -/
+non-periodic result raises `ValueError` while the periodic original returns an empty array).  Then
+`lower_periodic(k')` succeeds and `o'.evaluate tol [us] = o.evaluate tol [us]` (the same tensor)
+provided the parameters are admissible for the new basis too.  Via `Lemmas/BridgeTransfer.lean`
+(`transfer_curve`) and `C04.specRow_sum_periodic`.
+`_partial`: curves and admissible (tolerance-exact) parameters only; surfaces/volumes are covered
+fibre-wise by `C08_lower_periodic`. -/
 theorem C08_lower_periodic_curve_partial [FloorRing K] {o : Obj K} {b1 : Basis K}
-    (hb : o.bases = #[b1]) (hv1 : b1.Valid) (k : ℕ) (hk : b1.periodic = (k : Int))
-    (hguard : b1.order + k ≤ b1.numFunctions) {nc : ℕ}
+    (hb : o.bases = #[b1]) (hv1 : b1.Valid) (k : ℕ) (hk : b1.periodic = (k : Int)) {nc : ℕ}
     (hs : o.cps.shape = [b1.numFunctions, nc]) (hnc : o.rational = true → 1 ≤ nc)
-    (hseam : b1.start < b1.kn b1.order) (k' : Int) (h1 : -1 ≤ k') (h2 : k' ≤ k)
+    (k' : Int) (h1 : -1 ≤ k') (h2 : k' ≤ k)
     {tol : K} (htol : 0 < tol) {us : List K} (hus : ∀ u ∈ us, b1.Admissible tol u)
     (hdom : k' = -1 → ∀ u ∈ us, b1.start ≤ u ∧ u ≤ b1.stop) (hne : k' = -1 → us ≠ []) :
     ∃ o', o.lowerPeriodic k' 0 = .ok o' ∧ (o'.basis 0).Valid ∧ (o'.basis 0).periodic = k' ∧
       ((∀ u ∈ us, (o'.basis 0).Admissible tol u) →
         o'.evaluate tol [us] true = o.evaluate tol [us] true) := by
   obtain ⟨o', hl, hI, he⟩ :=
-    lowerPeriodic_evaluate_curve hb hv1 k hk hguard hs hnc hseam k' h1 h2 htol hus hdom hne
+    lowerPeriodic_evaluate_curve hb hv1 k hk hs hnc k' h1 h2 htol hus hdom hne
   have hb0 : o.basis 0 = b1 := by simp [Obj.basis, hb]
   refine ⟨o', hl, hI.valid, ?_, he⟩
   rw [hI.periodic_eq, hb0, hk]; omega
@@ -189,7 +210,11 @@ Proof: explicit induction over the `k + 1` insertions of `start` (`Lemmas/C08Ope
 `seamKn`, the insertion matrix keeps row `0` and copies row `r - j` into every row `r ≥ k + j`), then
 `roll(k+1)` / `np.roll(cps, -(k+1))`.
 
-`_partial`: the guard `n ≥ p + k` (known finding below it) and the tolerance separation. -/
+`_partial`: the guard `n ≥ p + k` and the tolerance separation.  The guard is kept HERE because the
+proof reads the explicit insertion matrix and repaired knot vector of the direct algorithm, which the
+cover branch of `insert_knot` (fewer than `p + k` functions) does not provide; the guard-free
+statement about `split(start)` — success, valid open basis on `[start, end]`, the SAME MAP — is
+`C08_open_at_seam_map_partial`. -/
 theorem C08_open_at_seam_partial [FloorRing K] (o : Obj K) (dir : ℕ) (hdir : dir < o.bases.size)
     (hax : dir < o.cps.shape.length) (hv : (o.basis dir).Valid) (k : ℕ)
     (hk : (o.basis dir).periodic = (k : Int))
@@ -208,6 +233,49 @@ theorem C08_open_at_seam_partial [FloorRing K] (o : Obj K) (dir : ℕ) (hdir : d
     open_at_seam o dir hdir hax hv k hk hguard hshape htol htolL htolR
   exact ⟨op, h1, h2, h3, h4, h5, h9⟩
 
+/-- **Opening at the seam, every valid periodic direction: `split(start, dir)` returns the same map
+on an open basis.**  No lower bound on the number of functions.  `dir` a valid periodic direction,
+control net with `n` rows along `dir`, no knot other than copies of `start` within the tolerance of
+`start` (`hexR`, `hexL`).  Then `split(start, dir)` returns a SINGLE object `op` whose basis along
+`dir` is a valid NON-periodic basis of the same order on `[start, end]` with `n + m` functions (`m`
+the number of inserted copies), the other bases and `rational` untouched, `n + m` rows along `dir`,
+and every control-net fibre of `op` evaluates at every `t` of `[start, end]` (both one-sided versions)
+to the wrapped-image sum `wsum` of the periodic original: the opened object is the same map.
+(`C07_split_periodic_partial` at `x0 = start`.)
+Weaker than `C08_open_at_seam_partial` in that the knot vector and the control points of `op` are not
+given explicitly.  `_partial`: `hexR`/`hexL` (the tolerance comparisons of `continuity` are exact). -/
+theorem C08_open_at_seam_map_partial [FloorRing K] (o : Obj K) (dir : ℕ) (hdir : dir < o.bases.size)
+    (hax : dir < o.cps.shape.length) (hv : (o.basis dir).Valid) (k : ℕ)
+    (hk : (o.basis dir).periodic = (k : Int))
+    (hshape : o.cps.shape.getD dir 0 = (o.basis dir).numFunctions) {tol : K} (htol : 0 < tol)
+    (hexR : ∀ i, i < (o.basis dir).knots.size →
+      (o.basis dir).kn i ≤ (o.basis dir).start ∨ (o.basis dir).start + tol ≤ (o.basis dir).kn i)
+    (hexL : ∀ i, i < (o.basis dir).knots.size →
+      (o.basis dir).kn i < (o.basis dir).start - tol ∨ (o.basis dir).start ≤ (o.basis dir).kn i) :
+    ∃ op m, o.split tol [(o.basis dir).start] dir = .ok (.single op) ∧
+      (op.basis dir).Valid ∧ (op.basis dir).periodic = -1 ∧
+      (op.basis dir).order = (o.basis dir).order ∧
+      (op.basis dir).numFunctions = (o.basis dir).numFunctions + m ∧
+      (op.basis dir).start = (o.basis dir).start ∧ (op.basis dir).stop = (o.basis dir).stop ∧
+      (∀ d, d ≠ dir → op.basis d = o.basis d) ∧ op.rational = o.rational ∧
+      op.cps.shape = o.cps.shape.set dir ((o.basis dir).numFunctions + m) ∧
+      ∀ a i, a < C04.outerN o dir → i < C04.innerN o dir → ∀ (s : Side) (t : K),
+        s.mem (o.basis dir).start (o.basis dir).stop t →
+        splineVal s (op.basis dir).kn ((o.basis dir).order - 1) ((o.basis dir).numFunctions + m)
+            (C04.fibre op dir a i) t
+          = C04.wsum s (o.basis dir).kn ((o.basis dir).order - 1) (o.basis dir).nAll
+              (o.basis dir).numFunctions (C04.fibre o dir a i) 0 t := by
+  have hx : (o.basis dir).start ≤ (o.basis dir).start ∧ (o.basis dir).start < (o.basis dir).stop :=
+    ⟨le_refl _, hv.start_lt_stop⟩
+  obtain ⟨op, m, h1, h2, h3, h4, h5, h6, h7, h8, h9, h10, h11⟩ :=
+    split_periodic_single_all o dir hdir hax hv k hk hshape tol (o.basis dir).start hx
+      (hMult_of_exact_all o dir hdir hv k hk hshape htol hx hexR hexL)
+  have hT : (o.basis dir).start + ((o.basis dir).stop - (o.basis dir).start) = (o.basis dir).stop := by
+    ring
+  rw [hT] at h7 h11
+  refine ⟨op, m, h1, h2, h3, h4, h5, h6, h7, h8, h9, h10, fun a i ha hi s t ht => ?_⟩
+  exact (h11 a i ha hi s t ht).1 ((Side.mem_iff s _ _ t).1 ht).2
+
 /-- **Round trip for continuity `k ≤ 1` — the model's `make_periodic(split(o, start), k)`.**
 Under the hypotheses of `C08_open_at_seam_partial` and `k ≤ 1` the round trip succeeds and returns an
 object with the SAME bases (in particular the same periodic knot vector, `C08_make_periodic_knots`),
@@ -216,7 +284,10 @@ the control-point array of `o` has the length its shape demands, the result IS `
 (`hOpen` of the earlier version is discharged by `C08_open_at_seam_partial`; for `k ≥ 2` the statement
 is false, `C08_roundtrip_fails_k2`.)
 
-`_partial`: guard `n ≥ p + k` and tolerance separation of the seam, as above. -/
+`_partial`: guard `n ≥ p + k` and tolerance separation of the seam, as above.  The guard is NOT an
+artefact of the proof here: below it `make_periodic` of the short open object `split(start)` returns
+fails or returns other control points (known finding `make-periodic-short-direction`; a one-function
+example is evaluated in `C08_roundtrip_fails_small`). -/
 theorem C08_roundtrip_k_le_1_partial [FloorRing K] (o : Obj K) (dir : ℕ) (hdir : dir < o.bases.size)
     (hax : dir < o.cps.shape.length) (hv : (o.basis dir).Valid) (k : ℕ) (hk1 : k ≤ 1)
     (hk : (o.basis dir).periodic = (k : Int))
@@ -477,4 +548,70 @@ theorem C08_exK1_seam_eval :
       | .ok r, .ok r' => (r.data.toList, r'.data.toList)
       | _, _ => ([], [1]))
     = ([8/3, -2], [8/3, -2]) := by
+  decide +kernel
+
+/-! ## Small periodic bases (fewer than `p + k` functions: the cover branch of `insert_knot`) -/
+
+/-- One control point: `p = 3`, `k = 1`, `n = 1 < p + k = 4`. -/
+def C08_exSmall : Obj ℚ :=
+  { bases := #[⟨3, #[-1/2, -1/4, 0, 1/4, 1/2, 3/4], 1⟩],
+    cps := { shape := [1, 2], data := #[1, 2] }, rational := false }
+
+theorem C08_exSmall_valid : (C08_exSmall.basis 0).Valid := (Basis.validB_iff _).1 (by decide +kernel)
+
+/-- `C08_lower_periodic` applies to it (every hypothesis instantiated) … -/
+example : ∃ o', C08_exSmall.lowerPeriodic (-1) 0 = .ok o' ∧ (o'.basis 0).Valid ∧
+    (o'.basis 0).periodic = -1 := by
+  obtain ⟨o', h1, h2, h3, _⟩ := C08_lower_periodic C08_exSmall 0 (by decide) (by decide)
+    C08_exSmall_valid 1 (by decide) (by decide) (-1) (by norm_num) (by norm_num)
+  exact ⟨o', h1, h2, h3⟩
+
+/-- … and the kernel evaluates the model: the constant curve on the open knot vector. -/
+theorem C08_exSmall_lower :
+    (match C08_exSmall.lowerPeriodic (-1) 0 with
+      | .ok o => ((o.basis 0).knots.toList, (o.basis 0).periodic, o.cps.shape, o.cps.data.toList)
+      | .error _ => ([], 7, [], []))
+      = ([0, 0, 0, 1/4, 1/4, 1/4], -1, [3, 2], [1, 2, 1, 2, 1, 2]) := by
+  decide +kernel
+
+/-- `C08_open_at_seam_map_partial` applies to it (`tol = 10⁻¹⁰`). -/
+example : ∃ op, C08_exSmall.split (1 / 10 ^ 10) [(C08_exSmall.basis 0).start] 0 = .ok (.single op) ∧
+    (op.basis 0).Valid ∧ (op.basis 0).periodic = -1 := by
+  have hst : (C08_exSmall.basis 0).start = 0 := by norm_num [Obj.basis, C08_exSmall, Basis.start, Basis.kn]
+  obtain ⟨op, m, h1, h2, h3, _⟩ := C08_open_at_seam_map_partial C08_exSmall 0 (by decide) (by decide)
+    C08_exSmall_valid 1 (by decide) (by decide) (tol := 1 / 10 ^ 10) (by norm_num)
+    (by
+      intro i hi
+      have hi' : i < 6 := hi
+      rw [hst]
+      interval_cases i <;> norm_num [Obj.basis, C08_exSmall, Basis.kn])
+    (by
+      intro i hi
+      have hi' : i < 6 := hi
+      rw [hst]
+      interval_cases i <;> norm_num [Obj.basis, C08_exSmall, Basis.kn])
+  exact ⟨op, h1, h2, h3⟩
+
+/-- **The round trip fails below the guard**: `split(start)` of the one-function curve succeeds (it is
+the open curve of `C08_exSmall_lower`), but `make_periodic(1)` of that short object is rejected by the
+constructor (`ValueError`, too few knots) — model and code agree (finding class
+`make-periodic-short-direction`). -/
+theorem C08_roundtrip_fails_small :
+    (match C08_exSmall.roundTrip (1 / 10 ^ 10) 1 0 with
+      | .ok _ => some PyErr.other
+      | .error e => some e) = some PyErr.value := by
+  decide +kernel
+
+/-- Two functions (`n = 2 < p + k = 4`): here the round trip still reproduces the object — the guard
+of `C08_roundtrip_k_le_1_partial` is sufficient, not sharp. -/
+def C08_exSmall2 : Obj ℚ :=
+  { bases := #[⟨3, #[-2, -1, 0, 1, 2, 3, 4], 1⟩],
+    cps := { shape := [2, 2], data := #[1, 2, 3, -1] }, rational := false }
+
+theorem C08_roundtrip_ok_small2 :
+    (match C08_exSmall2.roundTrip (1 / 10 ^ 10) 1 0 with
+      | .ok o => (o.cps.shape, o.cps.data.toList, (o.basis 0).knots.toList, (o.basis 0).periodic)
+      | .error _ => ([], [], [], 7))
+      = (C08_exSmall2.cps.shape, C08_exSmall2.cps.data.toList, (C08_exSmall2.basis 0).knots.toList,
+          (C08_exSmall2.basis 0).periodic) := by
   decide +kernel
